@@ -469,4 +469,84 @@ theorem zr_loop (hl : H.Lawful) (kl : List Keylog.Key) (L : SealLaws Pc) (dcid0 
       rw [y1, b4]
 
 end Loops
+section Tail
+variable (maskFn : Dissect.MaskFn) (H : Crypto.Prims) (Pc : Cipher.Prims)
+
+theorem eInv_noOut (e : Bytes) (ecs : Option SuiteSel) (s : St Tls) (h : EInv H e ecs s) : EInv H e ecs (noOut s) :=
+  fun selX hx => ⟨(h selX hx).dec, (h selX hx).hp⟩
+
+theorem eInv_wo (e : Bytes) (ecs : Option SuiteSel) (o : List Out) (s : St Tls) (h : EInv H e ecs s) : EInv H e ecs (wo o s) :=
+  fun selX hx => ⟨(h selX hx).dec, (h selX hx).hp⟩
+
+/-- the rest of a datagram — long-header packets, then optionally the closing 1-RTT packet — from a state in the handshake
+    invariant, with the Early keys carried along -/
+theorem tail_loop_early (hl : H.Lawful) (kl : List Keylog.Key) (L : SealLaws Pc) (dcid0 cr csel ch sh ca sa e : Bytes)
+    (sel : SuiteSel) (hsel : selectSuite csel = some sel) (hkl : KeylogHas kl cr ch sh ca sa (some e))
+    (ho : (hashOf H sel.hash).outLen < 65536)
+    (hsa : sa.length = (hashOf H sel.hash).outLen) (hca : ca.length = (hashOf H sel.hash).outLen)
+    (srv : Bool) (ts : Nat) (dcid : Bytes) (qs : List PkH) (so : Option Dg1)
+    (hdir : ∀ q ∈ qs, q.x.srv = srv ∧ q.x.ts = ts) (rest : List CryptoIn) (t : Trk) (s : St Tls)
+    (hst : HsSt H dcid0 sel ch sh ca sa t.keyed s t.tc t.ts t.cc t.sc t.core)
+    (hok : HsPks maskFn H Pc L dcid0 sel sh ch t qs) (htr : PTrace cr csel t.core (insOf qs ++ rest))
+    (ecs : Option SuiteSel) (hinv : EInv H e ecs s)
+    (hshort : ∀ o, so = some o → o.x.srv = srv ∧ o.x.ts = ts ∧ o.x.dcid = dcid ∧ (t.run qs).keyed = true ∧
+      o.x.level = .oneRtt ∧ o.x.gen = 0 ∧
+      PnLenOk (if o.x.srv then (t.run qs).ts.app else (t.run qs).tc.app) o.x.pn o.x.pnLen ∧ WellFormedSeq o.x.frames ∧
+      DgOk maskFn Pc L sel.alg (genDir (keyUpdate H sel .v1) (rfcGen (hashOf H sel.hash) sel.keyLen sa ca 0) o.x.srv 0)
+        (if o.x.srv then quicHp (hashOf H sel.hash) sa sel.keyLen else quicHp (hashOf H sel.hash) ca sel.keyLen)
+        (chachaOf (t.run qs).core) o) :
+    let tE := match so with | none => t.run qs | some o => (t.run qs).short o.x
+    ∃ s', (Dissect.dissectLoop maskFn (fun x : LoopSt => envOf x.1) (handleTurn (params H Pc kl)) srv dcid ts (s, none)
+        ((qs.map (pkWire H Pc L dcid0 sel sh ch)).flatten ++
+          (so.map (wireOf H Pc L sel .v1 (rfcGen (hashOf H sel.hash) sel.keyLen sa ca 0))).getD [])).1 = (s', none) ∧
+      HsSt H dcid0 sel ch sh ca sa tE.keyed (noOut s') tE.tc tE.ts tE.cc tE.sc tE.core ∧
+      PTrace cr csel tE.core rest ∧ EInv H e (ecsFold t.core (insOf qs) ecs) s' ∧
+      ∃ J, (∀ o ∈ J, UdpOut.exported false (frameOf o) = none) ∧
+        s'.out = J ++ (match so with | none => [] | some o => expectedOf .rtt1 o.x) := by
+  cases so with
+  | none =>
+    obtain ⟨s1, a1, a2, a3, a4⟩ := hs_loop_early maskFn H Pc hl kl L dcid0 cr csel ch sh ca sa e sel hsel hkl srv ts dcid qs
+      hdir rest [] t s hst hok htr ecs hinv
+    refine ⟨s1, ?_, ?_, ?_, a3, s1.out, a1.inv.out, by simp⟩
+    · simp only [Option.map_none, Option.getD_none]
+      rw [a4]; simp [Lemmas.QuicDissect.dissectLoop_nil]
+    · exact hsSt_noOut H _ _ _ _ _ _ _ _ _ _ _ _ _ a1
+    · exact a2
+  | some o =>
+    obtain ⟨s1, a1, a2, a3, a4⟩ := hs_loop_early maskFn H Pc hl kl L dcid0 cr csel ch sh ca sa e sel hsel hkl srv ts dcid qs
+      hdir rest (wireOf H Pc L sel .v1 (rfcGen (hashOf H sel.hash) sel.keyLen sa ca 0) o) t s hst hok htr ecs hinv
+    obtain ⟨o1, o2, o3, o4, o5, o6, o7, o8, o9⟩ := hshort o rfl
+    have hk := keysWf_rfc H hl Pc kl csel sel hsel .v1 ho sa ca hsa hca
+    have hst1 : HsSt H dcid0 sel ch sh ca sa true s1 (t.run qs).tc (t.run qs).ts (t.run qs).cc
+        (t.run qs).sc (t.run qs).core := by rw [← o4]; exact a1
+    have hest := est_of_hsSt H Pc kl dcid0 sel ch sh ca sa s1 _ _ _ _ _ hst1
+    have hlo : (if o.x.srv then 0 else 0) ≤ o.x.gen := by rw [o6]; split <;> exact Nat.le_refl _
+    have hhi : o.x.gen ≤ (if o.x.srv then 0 else 0) + 1 := by rw [o6]; split <;> omega
+    have hdg : DgOk maskFn Pc L sel.alg
+        (genDir (keyUpdate H sel .v1) (rfcGen (hashOf H sel.hash) sel.keyLen sa ca 0) o.x.srv o.x.gen)
+        (if o.x.srv then quicHp (hashOf H sel.hash) sa sel.keyLen else quicHp (hashOf H sel.hash) ca sel.keyLen)
+        (chachaOf (t.run qs).core) o := by rw [o6]; exact o9
+    have hturn := one_turn maskFn H Pc kl L sel .v1 _ _ _ _ hk s1 0 0 _ _ _ _ hest o o5 hlo hhi o7 o8 hdg
+    have hnc : ∀ f ∈ o.x.frames, isCryptoQ f = false := by
+      intro f hf
+      have := o9.noCrypto
+      unfold hasCrypto at this
+      rw [List.any_eq_false] at this
+      have := this f hf
+      cases f <;> first | rfl | (simp at this)
+    obtain ⟨b1, b2⟩ := hsSt_after_short H Pc hl kl L dcid0 sel ch sh ca sa hk (t.run qs) s1 o4 a1 o.x o5 o6 o7 o8 hnc
+    obtain ⟨_, _, _, _, c5, _, _, _⟩ := step_one_rtt_nc (params H Pc kl) L sel .v1 _ hk o.x s1 0 0 _ _ hest.rel o5 hlo hhi o7 o8 hnc
+    obtain ⟨_, k2, _, _, _, _⟩ := step_one_rtt_keep (params H Pc kl) L sel .v1 _ hk o.x s1 0 0 _ _ hest.rel o5 hlo hhi o7 o8 hnc
+    refine ⟨(stepPkt (params H Pc kl) s1 (emit1 (params H Pc kl) L sel .v1
+      (rfcGen (hashOf H sel.hash) sel.keyLen sa ca 0) o.x)).st, ?_, ?_, ?_, ?_, s1.out, a1.inv.out, ?_⟩
+    · simp only [Option.map_some, Option.getD_some]
+      rw [a4, ← o1, ← o2, ← o3]; exact hturn
+    · exact b1
+    · exact a2
+    · intro selX hx
+      obtain ⟨q1, q2⟩ := a3 selX hx
+      exact ⟨by rw [k2]; exact q1, by rw [c5]; exact q2⟩
+    · rw [b2]
+
+end Tail
 end TLX.Props.C02Capstone4
